@@ -190,6 +190,31 @@ theorem C05_source_events (E : Env α) (l : List α) (op : Op α) (items : List 
     simp only [PyL.summaryOfStep, hs, PyL.Summary.done.injEq] at h
     exact ⟨o, rfl, h.1.symm, h.2.1.symm, h.2.2.symm⟩
 
+/-- **The property, stated of the interpreted source.** Whenever a translated
+`TraitList` method returns: the contents and return value are those of the
+builtin list on the validated items; at most one event was fired; every event
+fired replays to the new contents from the old ones and is in normal form; and
+if the contents changed (under a permuting `sort`) exactly one event was fired. -/
+theorem C05_source_property (E : Env α) (hs : SortOk E) (l : List α) (op : Op α) (items : List α)
+    (r : Option α) (evs : List (Event α))
+    (h : PyL.runTraitListOp Generated.listHelpers Generated.traitListProg E l op = .done items r evs) :
+    (∃ op', validateOp E op = .ok op' ∧ pyStep E l op' = .ok (items, r))
+    ∧ evs.length ≤ 1
+    ∧ (∀ e ∈ evs, replay l e = some items ∧ NormalForm l e)
+    ∧ (items ≠ l → evs.length = 1) := by
+  obtain ⟨o, hst, rfl, rfl, rfl⟩ := C05_source_events E l op items r evs h
+  refine ⟨C05_refines_ok E l op o hst, ?_, ?_, ?_⟩
+  · cases o.event <;> simp
+  · intro e he
+    have he' : o.event = some e := by
+      cases hoe : o.event with
+      | none => simp [hoe] at he
+      | some e' => simp [hoe] at he; rw [he]
+    exact ⟨C05_replay E l op o e hst he', C05_index_normal E l op o e hst he'⟩
+  · intro hne
+    obtain ⟨e, he⟩ := C05_change_has_event E hs l op o hst hne
+    simp [he]
+
 def idEnv : Env Int := { v := fun _ x => .ok x, eq := (· == ·), sort := fun _ l => l.mergeSort (· ≤ ·) }
 
 /-- `x[4:0:-2] = [8, 9]` on a length-5 list: a reversed extended slice. -/
